@@ -123,6 +123,15 @@ impl Heap {
         Value::Lambda(LambdaPointer::new(self.insert(HeapValue::Lambda(lambda))))
     }
 
+    /// Number of values allocated so far; a value allocated later has an index >= this
+    pub fn len(&self) -> usize {
+        self.values.len()
+    }
+
+    pub fn is_empty(&self) -> bool {
+        self.values.is_empty()
+    }
+
     pub fn get(&self, id: usize) -> Option<&HeapValue> {
         self.values.get(id)
     }
